@@ -28,26 +28,41 @@ Theorem C32_ascii_is_valid : forall s, forallb (fun b => b <? 128) s = true -> u
 Proof. exact ascii_utf8_ok. Qed.
 Print Assumptions C32_ascii_is_valid.
 
-(* Facts about the model (C32 states no crash clause; these engine crashes are listed under C10).
-   Unquote is NOT crash-free on arbitrary input: backslash-u followed by exactly three bytes passes the
-   `i+4 > len(s)` test and then slices s[i+1:i+5] *)
-Theorem C32_unquote_panics_on_short_u_escape_fact : exists s, s = [92; 117; 49; 50; 51] /\ unquote s = RPanic.
-Proof. exact (ex_intro _ _ (conj eq_refl unquote_panics_short_u)). Qed.
-Print Assumptions C32_unquote_panics_on_short_u_escape_fact.
+(* since commit d9436d51b no input makes Unquote or UnquoteBytes crash: the model has no panic outcome left on
+   any path (before, backslash-u with exactly three bytes left, escaped surrogate halves and -- in UnquoteBytes -- a
+   trailing backslash did) *)
+Theorem C32_unquote_never_panics : forall s, unquote s <> RPanic.
+Proof. exact unquote_never_panics. Qed.
+Print Assumptions C32_unquote_never_panics.
 
-(* ... and an escaped surrogate (backslash-u d800; or the JSON text of U+1F600 written as a surrogate pair)
-   makes decodeEscapedUnicode slice char[0:-1] *)
-Theorem C32_unquote_panics_on_surrogate_escape_fact :
-  unquote [92; 117; 100; 56; 48; 48] = RPanic /\
-  unquote [34; 92; 117; 100; 56; 51; 100; 92; 117; 100; 101; 48; 48; 34] = RPanic.
-Proof. exact unquote_panics_surrogate. Qed.
-Print Assumptions C32_unquote_panics_on_surrogate_escape_fact.
+Theorem C32_unquote_bytes_never_panics : forall s, unquote_bytes s <> RPanic.
+Proof. exact unquote_bytes_never_panics. Qed.
+Print Assumptions C32_unquote_bytes_never_panics.
 
-(* UnquoteBytes indexes b[i] after a trailing backslash (Unquote returns the backslash) *)
-Theorem C32_unquote_bytes_panics_on_trailing_backslash_fact :
-  unquote_bytes [97; 92] = RPanic /\ unquote [97; 92] = ROk [97; 92].
-Proof. exact unquote_bytes_panics_trailing_backslash. Qed.
-Print Assumptions C32_unquote_bytes_panics_on_trailing_backslash_fact.
+(* what they return instead: a backslash-u with fewer than four bytes left is the Invalid unicode error (kind 1) *)
+Theorem C32_unquote_truncated_u_escape_is_error :
+  forall t, (length t < 4)%nat ->
+    unquote (92 :: 117 :: t) = RErr 1 /\ unquote_bytes (92 :: 117 :: t) = RErr 1.
+Proof. exact unquote_truncated_u. Qed.
+Print Assumptions C32_unquote_truncated_u_escape_is_error.
+
+(* ... and so is an escaped surrogate half, wherever decodeEscapedUnicode meets it first *)
+Theorem C32_unquote_surrogate_u_escape_is_error :
+  forall a b c d rest, decode4 a b c d = RErr 1 ->
+    unquote (92 :: 117 :: a :: b :: c :: d :: rest) = RErr 1 /\
+    unquote_bytes (92 :: 117 :: a :: b :: c :: d :: rest) = RErr 1.
+Proof. exact unquote_surrogate_u. Qed.
+Print Assumptions C32_unquote_surrogate_u_escape_is_error.
+
+(* the former crash inputs: backslash-u 123; backslash-u d800; the JSON text of U+1F600 as a surrogate pair;
+   a trailing backslash (kept by both functions) *)
+Example C32_former_crash_inputs :
+  unquote [92; 117; 49; 50; 51] = RErr 1 /\ decode4 100 56 48 48 = RErr 1 /\
+  unquote [92; 117; 100; 56; 48; 48] = RErr 1 /\
+  unquote [34; 92; 117; 100; 56; 51; 100; 92; 117; 100; 101; 48; 48; 34] = RErr 1 /\
+  unquote_bytes [97; 92] = ROk [97; 92] /\ unquote [97; 92] = ROk [97; 92].
+Proof. exact former_crash_inputs. Qed.
+Print Assumptions C32_former_crash_inputs.
 
 (* UnquoteBytes keeps only the first byte of a multi-byte backslash-u result (backslash-u 00e9 -> C3), Unquote keeps C3 A9 *)
 Theorem C32_unquote_bytes_truncates_fact :
